@@ -1,0 +1,11 @@
+//go:build verif
+
+package store
+
+// VerifRunCacheCleanup synchronously runs one pass of the periodic "cache"
+// cleanup job of s with the given settings — the same call the job's ticker
+// goroutine makes — so that the verification harness decides when a pass happens
+// and knows when it has finished. It only forwards; no cleanup logic lives here.
+func (s *CAStore) VerifRunCacheCleanup(config CleanupConfig) (int64, error) {
+	return s.cleanup.cleanup(s.cacheStore.newFileOp(), config.applyDefaults(), cachedInAgentPolicy)
+}
